@@ -13,6 +13,10 @@ CONSTANTS
   AllowKill = FALSE
   AllowFds = FALSE
   AllowFlush = TRUE
+  EmitAtBound = FALSE
+  Pin1 = 0
+  Pin2 = 0
+  HistMax = 60
   AtomicPoll = TRUE
 INVARIANTS Emit PollOK TokensOK InterestsOK
 CHECK_DEADLOCK FALSE
